@@ -101,6 +101,12 @@ def main():
         if vis == 'hook' and not hooks: continue
         funcs.append((f, vis))
 
+    # hand-modelled entry points (hex.rs)
+    for name, params, ret, trait, selft, fnname in [('Rgb.try_from_Hex', ['Hex'], 'Result<Rgb, error::Error>', 'TryFrom<Hex>', 'Rgb', 'try_from'),
+                                                     ('Hex.from_Rgb', ['Rgb'], 'Hex', 'From<Rgb>', 'Hex', 'from')]:
+        funcs.append(({'name': name, 'params': params, 'ret': ret, 'trait': trait, 'selft': selft, 'fnname': fnname, 'monadic': False, 'fuel': False,
+                       'alpha': 'none', 'file': 'lymui/src/hex.rs', 'tparams': [], 'dicts': []}, 'pub'))
+
     # ---------------- Lean
     L = ['-- GENERATED by tools/gen_dispatch.py; do not edit.', 'import LymuiVerif.Gen.Model', 'import LymuiVerif.Inst.Float', 'import LymuiVerif.Core.Wire', 'namespace Gen', 'open Wire', '']
     for name, info in structs.items():
